@@ -430,6 +430,19 @@ func Overwrite(col any, rt *refproto.Type, i int, v any) (ok bool) {
 		}
 	}()
 	rv := reflect.ValueOf(col)
+	if rv.Kind() == reflect.Pointer && rv.Elem().Kind() == reflect.Struct && strings.HasPrefix(rv.Elem().Type().Name(), "ColLowCardinality[") {
+		// the values of a LowCardinality column are an exported slice the caller may edit in place
+		vals := rv.Elem().FieldByName("Values")
+		if !vals.IsValid() || i >= vals.Len() {
+			return false
+		}
+		e, err := toRV(vals.Type().Elem(), v)
+		if err != nil {
+			return false
+		}
+		vals.Index(i).Set(e)
+		return true
+	}
 	if rv.Kind() != reflect.Pointer || rv.Elem().Kind() != reflect.Slice {
 		return false
 	}
